@@ -165,8 +165,8 @@ func runCase(c Case, st *Stats) *ev.Failure {
 	mutex.Lock()
 	flowRecords = nil
 	mutex.Unlock()
-	var model []uint32  // sequence numbers of the stored entries, oldest first
-	var texts []string  // the entry captured at each arrival, same indexing
+	var model []uint32 // sequence numbers of the stored entries, oldest first
+	var texts []string // the entry captured at each arrival, same indexing
 	seq := uint32(0)
 	arrivals := 0
 	arrive := func(i int, o Op) *ev.Failure {
@@ -284,7 +284,9 @@ func runCase(c Case, st *Stats) *ev.Failure {
 			arrived := make(chan *ev.Failure, 1)
 			hw := &hookWriter{ResponseRecorder: httptest.NewRecorder()}
 			hw.hook = func() {
-				go func() { arrived <- arrive(i, Op{Kind: "msg", Fields: []ref.Field{glue.UserField(ref.TU32)}, Recs: [][]ref.Value{{{U: 77}}}}) }()
+				go func() {
+					arrived <- arrive(i, Op{Kind: "msg", Fields: []ref.Field{glue.UserField(ref.TU32)}, Recs: [][]ref.Value{{{U: 77}}}})
+				}()
 				// give the arrival the chance to run if nothing holds it back (it must wait for the query)
 				select {
 				case f := <-arrived:
@@ -323,7 +325,9 @@ func runCase(c Case, st *Stats) *ev.Failure {
 			st.Queries++
 			flowRecordHandler(&failWriter{h: http.Header{}}, httptest.NewRequest("GET", "/records?format="+o.Format, nil))
 			doneA := make(chan *ev.Failure, 1)
-			go func() { doneA <- arrive(i, Op{Kind: "msg", Fields: []ref.Field{glue.UserField(ref.TU32)}, Recs: [][]ref.Value{{{U: 78}}}}) }()
+			go func() {
+				doneA <- arrive(i, Op{Kind: "msg", Fields: []ref.Field{glue.UserField(ref.TU32)}, Recs: [][]ref.Value{{{U: 78}}}})
+			}()
 			select {
 			case f := <-doneA:
 				if f != nil {
@@ -427,9 +431,19 @@ func genCase(t *rapid.T) Case {
 			for j := rapid.IntRange(1, 6).Draw(t, "nf"); j > 0; j-- {
 				o.Fields = append(o.Fields, pool[rapid.IntRange(0, len(pool)-1).Draw(t, "f")])
 			}
+			if rapid.IntRange(0, 7).Draw(t, "dup") == 0 { // the same element twice in one record (RFC 7011 allows it)
+				o.Fields = append(o.Fields, o.Fields[rapid.IntRange(0, len(o.Fields)-1).Draw(t, "dupof")])
+			}
 			if !o.Tpl {
-				for j := rapid.IntRange(1, 3).Draw(t, "nrec"); j > 0; j-- {
-					r := gen.Record(t, o.Fields, 40)
+				nrec, maxVar := rapid.IntRange(1, 3).Draw(t, "nrec"), 40
+				switch rapid.IntRange(0, 24).Draw(t, "big") {
+				case 0: // a message whose rendering is far larger than any wire message
+					nrec = rapid.IntRange(150, 700).Draw(t, "nrecbig")
+				case 1:
+					maxVar = 30000
+				}
+				for j := nrec; j > 0; j-- {
+					r := gen.Record(t, o.Fields, maxVar)
 					for fi, f := range o.Fields { // keep strings printable and free of line breaks
 						if f.Type == ref.TString {
 							r[fi].B = []byte(strings.Map(func(x rune) rune {
